@@ -147,6 +147,50 @@ func run(repo string) (string, error) {
 	if hsPos == 0 {
 		return "", fmt.Errorf("handleCallReq no longer calls handShake")
 	}
+	// handleCallReq: every dial is bounded. A dial is any call of a function or method whose name
+	// starts with `Dial`; it is bounded when it is net.DialTimeout(…) or a method of a composite
+	// literal `net.Dialer{…}` / `&net.Dialer{…}` that sets Timeout (or Deadline) to something that
+	// is not the literal 0. A bare net.Dial / net.DialTCP, or a Dialer held in a variable, is not.
+	dials, dialsBounded := 0, 0
+	walk(hcr, func(n ast.Node, st []ast.Node) {
+		c, ok := n.(*ast.CallExpr)
+		if !ok {
+			return
+		}
+		sel, ok := c.Fun.(*ast.SelectorExpr)
+		if !ok || !strings.HasPrefix(sel.Sel.Name, "Dial") {
+			return
+		}
+		dials++
+		if id, ok := sel.X.(*ast.Ident); ok {
+			if id.Name == "net" && sel.Sel.Name == "DialTimeout" && len(c.Args) == 3 && txt(c.Args[2]) != "0" {
+				dialsBounded++
+			}
+			return
+		}
+		x := sel.X
+		for {
+			if p, ok := x.(*ast.ParenExpr); ok {
+				x = p.X
+			} else if u, ok := x.(*ast.UnaryExpr); ok && u.Op == token.AND {
+				x = u.X
+			} else {
+				break
+			}
+		}
+		cl, ok := x.(*ast.CompositeLit)
+		if !ok || cl.Type == nil || txt(cl.Type) != "net.Dialer" {
+			return
+		}
+		for _, e := range cl.Elts {
+			if kv, ok := e.(*ast.KeyValueExpr); ok {
+				if k := txt(kv.Key); (k == "Timeout" || k == "Deadline") && txt(kv.Value) != "0" {
+					dialsBounded++
+					return
+				}
+			}
+		}
+	})
 
 	// utils.MergeErrors (what handShake returns): every forwarding goroutine releases the
 	// WaitGroup on every way out, i.e. its body starts with `defer wg.Done()`.
@@ -357,6 +401,11 @@ func run(repo string) (string, error) {
 		return "", err
 	}
 	s += ct
+	st, err := subTableFacts(repo, sf)
+	if err != nil {
+		return "", err
+	}
+	s += st
 	s += "end Dos.Gen\n"
 	return s, nil
 }
